@@ -47,15 +47,15 @@ func sortInts(a []int) {
 }
 
 type hsCase struct {
-	ClientRev   int    `json:"client_revision"`
-	ServerRev   int    `json:"server_revision"`
-	Reply       string `json:"reply"` // hello delayed exception other garbage truncated cut stall
-	K           int    `json:"k"`
+	ClientRev           int    `json:"client_revision"`
+	ServerRev           int    `json:"server_revision"`
+	Reply               string `json:"reply"` // hello delayed exception other garbage truncated cut stall
+	K                   int    `json:"k"`
 	DB, User, Pw, Quota string
-	DelayMs     int `json:"delay_ms"`
-	ReadToMs    int `json:"read_timeout_ms"`
-	HsToMs      int `json:"handshake_timeout_ms"`
-	DialToMs    int `json:"dial_timeout_ms"`
+	DelayMs             int `json:"delay_ms"`
+	ReadToMs            int `json:"read_timeout_ms"`
+	HsToMs              int `json:"handshake_timeout_ms"`
+	DialToMs            int `json:"dial_timeout_ms"`
 }
 
 type hsOutcome struct {
@@ -342,5 +342,11 @@ func runC13(c *Ctx) {
 			h.DialToMs, h.ReadToMs = 40, 800
 			c13Case(c, r.Fork(), h)
 		}
+	}
+	// a hello that arrives inside the last read-timeout window before the handshake timeout (after three expired reads of
+	// 300 ms, 200 ms before the 1200 ms limit) is still before the handshake timeout
+	for _, rep := range []string{"delayed", "delayed-split"} {
+		h := hsCase{ClientRev: revs[r.Intn(len(revs))], ServerRev: 54460, Reply: rep, DB: "db", User: "u", Pw: "p", Quota: "k", ReadToMs: 300, HsToMs: 1200, DelayMs: 1000}
+		c13Case(c, r.Fork(), h)
 	}
 }
